@@ -60,6 +60,11 @@ class Resp:
 
 import TreeDisplay      # noqa: E402,F401
 
+from TreeDisplay.TreeTag import encode_seq as _enc      # noqa: E402
+TREE_COOKIE = _enc([['r']])
+TREE_EXP_A = _enc(['r', 'a'])
+TREE_EXP_B = _enc(['r', 'b'])
+
 DATA = [{'a': 2, 'b': 1, 'i': 0}, {'a': 1, 'b': 2, 'i': 1}, {'a': 3, 'b': 0, 'i': 2}]
 SUB = None
 
@@ -99,6 +104,11 @@ SCEN = {
                   {'A': dict(w={'who': 'alice', 's': DATA[:2]}, o=Obj('oa'), x=1), 'B': dict(w={'who': 'bob', 's': DATA[1:]}, o=Obj('ob'))}),
     'tree': (lambda: HTML('<dtml-tree root branches=kids><dtml-var name></dtml-tree>'), True,
              {'A': dict(root=TNode('ra', [TNode('a1'), TNode('a2')]), URL='u', RESPONSE=Resp(), expand_all=1), 'B': dict(root=TNode('rb', [TNode('b1')]), URL='v', RESPONSE=Resp())}),
+    'sort_userfn': (lambda: HTML('<dtml-in s mapping sort="a/mycmp">&dtml-i;,</dtml-in><dtml-in s mapping sort="b/mycmp,i">&dtml-i;</dtml-in>'), True,
+                    {'A': dict(s=DATA, mycmp=lambda x, y: (x > y) - (x < y)), 'B': dict(s=DATA, mycmp=lambda x, y: (x < y) - (x > y))}),
+    'tree_state': (lambda: HTML('<dtml-tree root branches=kids>[<dtml-var name>]</dtml-tree>'), True,
+                   {'A': dict(root=TNode('r', [TNode('a', [TNode('a1')]), TNode('b', [TNode('b1')])]), URL='u', RESPONSE=Resp(), **{'tree-s': TREE_COOKIE, 'tree-e': TREE_EXP_A}),
+                    'B': dict(root=TNode('r', [TNode('a', [TNode('a1')]), TNode('b', [TNode('b1')])]), URL='u', RESPONSE=Resp(), **{'tree-s': TREE_COOKIE, 'tree-e': TREE_EXP_B})}),
     'vars_fmt': (lambda: HTML('<dtml-var x fmt="%05d"> <dtml-var t size=3 etc=".."> <dtml-var n null="nil"> <dtml-var u upper html_quote>&dtml.url_quote-u;'), True,
                  {'A': dict(x=1, t='abcdef', n=None, u='a<b'), 'B': dict(x=22, t='xy', n=3, u='c d')}),
 }
@@ -125,7 +135,7 @@ def make(name):
         if v == 'unsat':
             res.update(status='confirmed', message=r['message'])
         elif v == 'violation':
-            res.update(status='refuted', cex={'scenario': name, 'schedule': r['schedule'], 'amplify': r.get('amplify')},
+            res.update(status='refuted', cex={'scenario': name, 'schedule': r['schedule'], 'amplify': r.get('amplify'), 'order_dependence': r.get('order_dependence', False)},
                        message='%s; replay on real threads: %r' % (r['message'], r['differs']))
         else:
             res.update(status='inconclusive', message='%s: %s' % (v, r.get('message')))
@@ -137,6 +147,15 @@ def replay(cex):
     name, order = cex['scenario'], cex['schedule']
     mk, cooked, inputs = SCEN.get(name) or THREE[name]
     worst = None
+    if cex.get('order_dependence'):
+        _t1, s1 = schedsmt.run_solo(mk, inputs, cooked, call_kw)
+        _t2, s2 = schedsmt.run_solo(mk, dict(reversed(list(inputs.items()))), cooked, call_kw)
+        _t3, s3 = schedsmt.run_solo(mk, inputs, cooked, call_kw)
+        od = {k: (s1[k], s2.get(k), s3.get(k)) for k in s1 if s2.get(k) != s1[k] or s3.get(k) != s1[k]}
+        if od:
+            return False, ('scenario %s: each thread body rendered alone on a fresh template object, in the orders A..Z, Z..A, A..Z: results differ %r - another render '
+                           'in the same process changes what a render produces (state shared outside the template object)' % (name, {k: tuple(repr(x)[:80] for x in v) for k, v in od.items()}))
+        return True, 'no order dependence on replay'
     amp = cex.get('amplify')
     if amp:
         # cumulative corruption: re-run the deterministic amplification (steady-state traces, solver-made schedule, repeated
